@@ -74,6 +74,9 @@ pub struct FinalInfo {
     pub teardown_done: bool,
     /// (cycle, live bytes) samples taken by churn programs
     pub samples: Vec<(u32, i64)>,
+    /// sequential engine: (class, site, message) of model mismatches
+    pub seq_violations: Vec<(String, String, String)>,
+    pub seq_calls: u64,
 }
 
 pub struct RunOutcome {
@@ -90,6 +93,8 @@ pub struct RunOutcome {
     pub solo_blocked: bool,
     pub harness_errors: Vec<String>,
     pub diverged_at: Option<u64>,
+    /// simulated task that panicked (usize::MAX if none)
+    pub panic_task: usize,
 }
 
 // ------------------------------------------------------------------- shared run state
@@ -108,6 +113,7 @@ thread_local! {
     static ERRORS: RefCell<Vec<String>> = RefCell::new(Vec::new());
     static COMPLETED: Cell<bool> = Cell::new(false);
     static PANIC_MSG: RefCell<Option<String>> = RefCell::new(None);
+    static PANIC_TASK: Cell<usize> = Cell::new(usize::MAX);
 }
 
 fn harness_error(s: String) {
@@ -141,6 +147,14 @@ fn api<R>(op: OpK, h: u32, stream: u32, val: u64, serial: u32, f: impl FnOnce() 
     (idx, r)
 }
 
+#[inline]
+pub fn api_pub<R>(op: OpK, h: u32, stream: u32, val: u64, serial: u32, f: impl FnOnce() -> R) -> (usize, R) {
+    api(op, h, stream, val, serial, f)
+}
+pub fn ret_pub(idx: usize, res: Res) {
+    ret(idx, res)
+}
+
 /// A call returned with an effect on the queue: that is progress for the no-progress
 /// detector (refused / empty results are not).
 #[inline]
@@ -157,6 +171,11 @@ fn ret(idx: usize, res: Res) {
 }
 
 // ----------------------------------------------------------------------- executor
+
+struct NoNotify;
+impl Notify for NoNotify {
+    fn notify(&self, _id: usize) {}
+}
 
 struct SimNotify {
     parker: Parker,
@@ -534,6 +553,8 @@ impl Ctx {
                     got: 0,
                     after_end,
                     ended: false,
+                    max_empty,
+                    empties: 0,
                 };
                 run_task(fut, spurious, &mut rng);
             }
@@ -655,16 +676,43 @@ impl Ctx {
             None => return,
             Some(hd) => hd.stream,
         };
-        let p = if kind == TryKind::Send { self.next_value(h) } else { None };
+        let sending = matches!(kind, TryKind::Send | TryKind::StartSend);
+        if sending != self.handles[&h].k.is_sender() {
+            return harness_error("solo_try kind does not fit the handle".into());
+        }
+        let p = if sending { self.next_value(h) } else { None };
+        // The short critical sections on the queue's internal mutexes are mutual exclusion,
+        // not waiting for queue progress: for the futures entry points (C15) freeze the
+        // others only at a state in which none of them holds a lock. The plain try
+        // operations (C18) take no lock at all, so there the freeze is unconditional.
+        let needs_lock_free = matches!(kind, TryKind::Poll | TryKind::StartSend) || self.sh.scn.queue.fut;
+        let mut freeze = true;
+        if needs_lock_free {
+            let mut tries = 0;
+            loop {
+                let held = rt::with(|r| (0..MAX_TASKS).any(|t| t != me && r.locks_held[t].get() > 0));
+                if !held {
+                    break;
+                }
+                tries += 1;
+                if tries > 64 {
+                    freeze = false;
+                    break;
+                }
+                rt::shim::yield_now();
+            }
+        }
         let hd = self.handles.get_mut(&h).unwrap();
-        // freeze everybody else exactly where they are
-        rt::with(|r| {
-            r.solo_blocked.set(false);
-            r.solo.set(Some(me));
-        });
+        if freeze {
+            rt::with(|r| {
+                r.solo_blocked.set(false);
+                r.solo.set(Some(me));
+            });
+        }
         let s0 = rt::with(|r| r.task_steps[me].get());
         let idx;
         let res;
+        let nh: NotifyHandle = NotifyHandle::from(Arc::new(NoNotify));
         match kind {
             TryKind::Send => {
                 let p = p.unwrap();
@@ -679,6 +727,34 @@ impl Ctx {
                     }
                     Err(TrySendError::Disconnected(b)) => {
                         hist::update(idx, |r| r.back_serial = b.serial);
+                        Res::Disc
+                    }
+                };
+            }
+            TryKind::StartSend => {
+                let p = p.unwrap();
+                let (id, serial) = (p.id, p.serial);
+                let k = &mut hd.k;
+                let (i, r) = api(OpK::StartSend, h, NO_STREAM, id, serial, || {
+                    let mut out = None;
+                    let mut pp = Some(p);
+                    let mut sp = executor::spawn(futures::future::poll_fn(|| -> Poll<(), ()> {
+                        out = Some(k.start_send(pp.take().unwrap()));
+                        Ok(Async::Ready(()))
+                    }));
+                    let _ = sp.poll_future_notify(&nh, 0);
+                    drop(sp);
+                    out.unwrap()
+                });
+                idx = i;
+                res = match r {
+                    Ok(AsyncSink::Ready) => Res::Ok,
+                    Ok(AsyncSink::NotReady(b)) => {
+                        hist::update(idx, |r| r.back_serial = b.serial);
+                        Res::NotReady
+                    }
+                    Err(e) => {
+                        hist::update(idx, |r| r.back_serial = e.0.serial);
                         Res::Disc
                     }
                 };
@@ -701,14 +777,35 @@ impl Ctx {
                     Err(TryRecvError::Disconnected) => Res::End,
                 };
             }
+            TryKind::Poll => {
+                let k = &mut hd.k;
+                let (i, r) = api(OpK::Poll, h, stream, 0, NONE, || {
+                    let mut out = None;
+                    let mut sp = executor::spawn(futures::future::poll_fn(|| -> Poll<(), ()> {
+                        out = Some(k.poll());
+                        Ok(Async::Ready(()))
+                    }));
+                    let _ = sp.poll_future_notify(&nh, 0);
+                    drop(sp);
+                    out.unwrap()
+                });
+                idx = i;
+                res = match r {
+                    Ok(Async::Ready(Some(v))) => Res::Val(v),
+                    Ok(Async::Ready(None)) => Res::End,
+                    Ok(Async::NotReady) => Res::NotReady,
+                    Err(()) => Res::Panic,
+                };
+            }
         }
-        let s1 = rt::with(|r| {
+        let (s1, blocked) = rt::with(|r| {
             r.solo.set(None);
-            r.task_steps[me].get()
+            (r.task_steps[me].get(), r.solo_blocked.replace(false))
         });
         hist::update(idx, |r| {
-            r.solo = true;
+            r.solo = freeze;
             r.own_steps = (s1 - s0) as u32;
+            r.solo_blocked = blocked;
         });
         ret(idx, res);
     }
@@ -891,6 +988,9 @@ struct RecvFut<'a> {
     got: u32,
     after_end: u8,
     ended: bool,
+    /// give up (stop polling) after this many NotReady results in a row
+    max_empty: u32,
+    empties: u32,
 }
 
 impl<'a> Future for RecvFut<'a> {
@@ -905,6 +1005,7 @@ impl<'a> Future for RecvFut<'a> {
                 Ok(Async::Ready(Some(v))) => {
                     ret(idx, Res::Val(v));
                     self.got += 1;
+                    self.empties = 0;
                     if self.ended {
                         // a value after the end of the stream: keep it in the history
                         if self.after_end == 0 {
@@ -931,6 +1032,16 @@ impl<'a> Future for RecvFut<'a> {
                         // NotReady after the end was reported: recorded; stop polling
                         return Ok(Async::Ready(()));
                     }
+                    if self.max_empty != UNLIMITED {
+                        // a consumer that does not want to wait: poll again right away (it
+                        // notifies itself) and walk away after max_empty attempts
+                        self.empties += 1;
+                        if self.empties > self.max_empty {
+                            return Ok(Async::Ready(()));
+                        }
+                        futures::task::current().notify();
+                        rt::shim::yield_now();
+                    }
                     return Ok(Async::NotReady);
                 }
                 Err(()) => {
@@ -951,6 +1062,30 @@ fn body() {
     let (idx, (tx, rx)) = api(OpK::Create, 0, 0, 0, NONE, || sh.scn.queue.create());
     hist::update(idx, |r| r.new_h = 1);
     ret(idx, Res::Ok);
+    if let Some(calls) = &sh.scn.seq {
+        // sequential engine: every return value is compared with the reference model
+        let mut run = crate::seq::SeqRun::new(&sh, tx, rx);
+        run.run(calls);
+        let aborted = run.aborted;
+        FINAL.with(|f| {
+            let mut f = f.borrow_mut();
+            f.seq_calls = run.calls;
+            f.samples = std::mem::take(&mut run.samples);
+            f.seq_violations = run.violations.drain(..).map(|v| (v.class, v.site, v.msg)).collect();
+        });
+        main.handles = std::mem::take(&mut run.handles);
+        drop(run);
+        hist::set_phase(2);
+        if aborted {
+            // the model and the queue have diverged: just let go of everything
+            main.handles.clear();
+        } else {
+            main.teardown();
+        }
+        drop(main);
+        finish();
+        return;
+    }
     main.handles.insert(0, Handle { id: 0, stream: NO_STREAM, seq: 0, k: tx });
     main.handles.insert(1, Handle { id: 1, stream: 0, seq: 0, k: rx });
     for op in &sh.scn.setup {
@@ -975,6 +1110,10 @@ fn body() {
     hist::set_phase(2);
     main.teardown();
     drop(main);
+    finish();
+}
+
+fn finish() {
     FINAL.with(|f| {
         let mut f = f.borrow_mut();
         f.live_bytes_after = rt::galloc::live_bytes();
@@ -1017,6 +1156,7 @@ fn install_panic_hook() {
                 if let Ok(mut p) = p.try_borrow_mut() {
                     if p.is_none() {
                         *p = Some(format!("{}{}", msg, loc));
+                        let _ = PANIC_TASK.try_with(|t| t.set(rt::with(|r| r.cur.get())));
                     }
                 }
             });
@@ -1091,6 +1231,7 @@ fn collect(core: &mut Option<Core>, end_hint: Option<End>) -> RunOutcome {
         solo_blocked,
         harness_errors,
         diverged_at: core.diverged_at,
+        panic_task: PANIC_TASK.with(|t| t.replace(usize::MAX)),
     }
 }
 
